@@ -40,7 +40,10 @@ def recipes():
   srq = {"activation_tensor_config": act, "weight_tensor_config": w, "compute_precision": "INTEGER", "explicit_dequantize": False, "skip_checks": False}
   act16 = dict(act, num_bits=16, symmetric=True)
   srq16 = dict(srq, activation_tensor_config=act16)
-  drq = {"weight_tensor_config": w, "compute_precision": "INTEGER", "explicit_dequantize": False, "skip_checks": False}
+  # (tensor-wise weights here, channel-wise in the static recipes: a calibration result made under RA / RB holds per-channel weight
+  # statistics, so whatever quantize() under RC writes into the caller's object differs from what is there)
+  wt = dict(w, granularity="TENSORWISE")
+  drq = {"weight_tensor_config": wt, "compute_precision": "INTEGER", "explicit_dequantize": False, "skip_checks": False}
   rule = lambda rx, op, cfg: {"regex": rx, "operation": op, "algorithm_key": "min_max_uniform_quantize", "op_config": copy.deepcopy(cfg)}
   return {
       "RA": [rule(".*", "*", srq)],                                             # everything static: TANH and RESHAPE write statistics
@@ -53,6 +56,7 @@ def recipes():
 
 
 # recipe ids the store can hold (RBfc = what is left of RB when its ADD rule is refused under the restricted policy)
+MAXCALS = 2      # Api.tla's MaxCals
 NEEDS_CAL = {"RA": True, "RB": True, "RBfc": True, "RC": False}
 POLICIES = ["P0", "P1"]      # P0 = the default policy; P1 = static a8w8 only for FULLY_CONNECTED / INPUT / OUTPUT (+ dynamic FC)
 LOAD_OUTCOME = {("RA", "P0"): ("ok", "RA"), ("RA", "P1"): ("ok", "RA"), ("RB", "P0"): ("ok", "RB"), ("RB", "P1"): ("raise", "RBfc"),
@@ -186,6 +190,9 @@ def _replay_steps(trans, world, snaps, qs, problems, hist, pol, folder):
         res = q.calibrate(world["data"][act[2]], previous_calibration_result=prev)
         if res == {} and not q.need_calibration:
           got = "empty"
+          if len(world["cals"]) < MAXCALS:      # the {} is a caller-owned object too (kept while there is room, as in Api.tla)
+            world["cals"].append(res)
+            snaps["cals"].append(copy.deepcopy(res))
         else:
           world["cals"].append(res)
           snaps["cals"].append(copy.deepcopy(res))
@@ -316,6 +323,8 @@ def _stateful_replay(item):
         prev = cals[act[3] - 1] if act[3] else None
         res = q.calibrate(list(data[act[2]]), previous_calibration_result=copy.deepcopy(prev))
         if res == {} and not q.need_calibration:
+          if len(cals) < MAXCALS:
+            cals.append(res)
           continue
         cals.append(res)
         ncal += 1
@@ -377,7 +386,7 @@ def main():
   q = lambda s: '"%s"' % s
   pair = lambda k: "<<%s, %s>>" % (q(k[0]), q(k[1]))
   consts = dict(NQ="2", Recipes=tlc.tla_str_set(["RA", "RB", "RC"]), Policies=tlc.tla_str_set(POLICIES), Datasets=tlc.tla_str_set(["D1", "D2"]),
-                MaxLen=str(maxlen), MaxCals="2", Names=tlc.tla_str_set(["m1"]), EmptyData="{}",
+                MaxLen=str(maxlen), MaxCals=str(MAXCALS), Names=tlc.tla_str_set(["m1"]), EmptyData="{}",
                 LoadOutcome="(" + " @@ ".join("%s :> <<%s, %s>>" % (pair(k), q(v[0]), q(v[1])) for k, v in LOAD_OUTCOME.items()) + ")",
                 NeedsCal="(" + " @@ ".join("%s :> %s" % (q(r), tlc.tla_bool(v)) for r, v in NEEDS_CAL.items()) + ")",
                 WritesStats="(" + " @@ ".join("%s :> %s" % (pair(k), tlc.tla_bool(WRITES.get(k, False))) for k in STATS_OF) + ")",
